@@ -237,10 +237,16 @@ Ltac break_match_hyp H :=
   | context [match ?x with _ => _ end] => destruct x eqn:?
   end.
 
+Ltac notin :=
+  unfold sub;
+  repeat match goal with
+         | |- context [match ?x with _ => _ end] => destruct x
+         end; simpl; intuition discriminate.
+
 Lemma fix_left_bs_tags : forall cp n k i s t' st tg,
     fix_left_bs cp n k i s = (t', st, tg) -> ~ In TF_null_mirror tg.
 Proof.
-  unfold fix_left_bs; intros. repeat break_match_hyp H; inv H; simpl; intuition discriminate.
+  unfold fix_left_bs; intros. repeat break_match_hyp H; inv H; notin.
 Qed.
 
 Lemma fix_left_tags : forall cp n k i s t' st tg,
@@ -256,7 +262,7 @@ Qed.
 Lemma fix_right_bs_tags : forall cp n k i s t' st tg,
     fix_right_bs cp s k i n = (t', st, tg) -> ~ In TF_null_mirror tg.
 Proof.
-  unfold fix_right_bs; intros. repeat break_match_hyp H; inv H; simpl; intuition discriminate.
+  unfold fix_right_bs; intros. repeat break_match_hyp H; inv H; notin.
 Qed.
 
 Lemma fix_right_tags : forall cp n k i s t' st tg,
